@@ -189,6 +189,25 @@ def rule_full(repo, rep):
     if isinstance(n, ast.Assign) and isinstance(n.targets[0], ast.Name) and \
             ast.unparse(n.value) == 'self.A_':
       Aname = n.targets[0].id
+  # the projection tolerance itself: the documented 1%, a fixed constant
+  ed = [v for (n, v) in guards.assignments(f.node, 'eps') if v is not None]
+  if len(ed) == 1 and isinstance(ed[0], ast.Constant) and \
+          isinstance(ed[0].value, (int, float)):
+    okc = 0 < ed[0].value <= 0.01
+    rep.add(R, 'mmc._BaseMMC._fit_full:projection-tolerance', 'derived' if okc
+            else 'refuted', site(f), '' if okc else 'the relative violation '
+            'accepted as feasible is %r, documented 1%%' % ed[0].value)
+  elif ed and any(isinstance(x, ast.Attribute) and
+                  isinstance(x.value, ast.Name) and x.value.id == 'self'
+                  for v in ed for x in ast.walk(v)):
+    rep.refuted(R, 'mmc._BaseMMC._fit_full:projection-tolerance', site(f),
+                'the relative violation accepted as feasible is %s: it moves '
+                'with a hyper-parameter, documented: a fixed 1%%'
+                % ' / '.join(ast.unparse(v) for v in ed))
+  else:
+    rep.unknown(R, 'mmc._BaseMMC._fit_full:projection-tolerance', site(f),
+                'tolerance %s not recognised'
+                % [ast.unparse(v) for v in ed])
   for s in sats:
     cmps = guards.path_cmps(f.node, s)
     ok = any(isinstance(c, Cmp) and c == Cmp(Lin({('n', 'error2'): 1,
